@@ -429,7 +429,22 @@ def sp_op(proj, ch, lab, _files):
                     break
             landed.add((scope, a.rpartition(".")[2]))
         pairs.append([a, outs[j]])
-    bad = ch.chance(lab + ".bad", 0.15)
+    clash = False
+    if not ev and ch.chance(lab + ".clash", 0.18):
+        # an earlier pair writes a name into a definition in which a later pair addresses a property of that very name
+        # (the classic "swap two parameters"): each pair must still hit the property it addresses in the file as given
+        clash = True
+        which = ch.choice(lab + ".clashwhich", ["fn", "method", "class"])
+        if which == "fn":
+            inp = inp.replace("def source_fn(%s:" % farg, "def source_fn(%s:" % okw2).replace("return %s\n" % farg, "return %s\n" % okw2)
+            pairs = [["source_fn." + okw2, "target_fn." + oarg], ["Source." + cattr, "target_fn." + okw2]]
+        elif which == "method":
+            inp = inp.replace("def method(self, %s:" % marg, "def method(self, %s:" % okw).replace("        return %s\n" % marg, "        return %s\n" % okw)
+            pairs = [["Source.method." + okw, "Target.method." + omarg], ["module_attr", "Target.method." + okw]]
+        else:
+            inp = inp.replace("    %s: %s = %s\n    unrelated_attr" % (cattr, ctyp, cdef), "    other_attr: %s = %s\n    unrelated_attr" % (ctyp, cdef))
+            pairs = [["Source.other_attr", "Target." + oattr], ["module_attr", "Target.other_attr"]]
+    bad = ch.chance(lab + ".bad", 0.15) and not clash
     if bad:
         j = ch.int(lab + ".badj", 0, npairs - 1)
         which = ch.choice(lab + ".badwhich", ["in", "out", "out-prefix"])
